@@ -77,5 +77,5 @@ TSpec == TInit /\ [][TNext]_tvars
 (* high-water mark of consumed lines *)
 Mark == TLCSet(1, IF TLCGet(1) < l THEN l ELSE TLCGet(1))
 ASSUME TLCSet(1, 0)
-Accepted == TLCGet(1) = Len(Log) + 1
+Accepted == IF TLCGet(1) = Len(Log) + 1 THEN TRUE ELSE PrintT(<<"high-water mark", TLCGet(1)>>) /\ FALSE
 =============================================================================
